@@ -177,10 +177,16 @@ def apply(s, model, op, cls):
             raise Mismatch('invariant', 'result of %s: %s' % (name, bad))
     elif name == 'iterrm':
         visited = []
+        k = len(op[1])
         for x in s:
             visited.append(x)
             if x in op[1]:
-                s.discard(x)
+                # the visited element goes away through remove() and through discard() in turn
+                k += 1
+                if k % 2:
+                    s.discard(x)
+                else:
+                    s.remove(x)
         if visited != model:
             raise Mismatch('iteration-with-removal', 'removing %r while iterating %r visited %r'
                            % (op[1], model, visited))
